@@ -73,11 +73,12 @@ type C8Pipe struct {
 	P2   *C8Pr2   `json:",omitempty"` // merge: less(a,b)
 }
 type C8Term struct {
-	Kind string // none first single size present indexWhere contains reduce
+	Kind string // none first single size present indexWhere contains containsAll reduce
 	ID   int
 	P1   *C8Pr1 `json:",omitempty"`
 	F2   *C8Fn2 `json:",omitempty"`
 	X    int
+	XS   []int `json:",omitempty"` // containsAll: the list needle of  [a,b] ~ pipeline  (List.containsAllItems; Go oracle only)
 }
 type C8Case struct {
 	Pipe  *C8Pipe
@@ -109,6 +110,8 @@ func (p *C8Pr1) body(x string) string {
 		return fmt.Sprintf("%s>%d", x, p.T)
 	case "eq":
 		return fmt.Sprintf("%s=%d", x, p.T)
+	case "lt":
+		return fmt.Sprintf("%s<%d", x, p.T)
 	}
 	return fmt.Sprintf("%s%%%d=%d", x, p.M, p.R)
 }
@@ -264,6 +267,12 @@ func (c *C8Case) exprWith(pe string) string {
 		return pe + "." + c.Term.Kind + "(" + c.Term.P1.Expr(c.Term.ID) + ")"
 	case "contains":
 		return fmt.Sprintf("%d ~ %s", c.Term.X, pe)
+	case "containsAll":
+		xs := make([]string, len(c.Term.XS))
+		for i, v := range c.Term.XS {
+			xs[i] = strconv.Itoa(v)
+		}
+		return "[" + strings.Join(xs, ",") + "] ~ " + pe
 	case "reduce":
 		return pe + ".reduce(" + c.Term.F2.Expr(c.Term.ID) + ")"
 	}
@@ -299,6 +308,8 @@ func (p *C8Pr1) Coq() string {
 		k = "(DGt " + coqZ(p.T) + ")"
 	case "eq":
 		k = "(DEq " + coqZ(p.T) + ")"
+	case "lt":
+		k = "(DLt " + coqZ(p.T) + ")"
 	default:
 		k = "(DMod " + coqZ(p.M) + " " + coqZ(p.R) + ")"
 	}
@@ -474,6 +485,7 @@ func c8Eval(exp string, limit time.Duration) c8Obs {
 	c8par = false
 	c8mu.Unlock()
 	t0 := time.Now()
+	g0 := runtime.NumGoroutine()
 	go func() {
 		c8mu.Lock()
 		c8gid = c08CurGid()
@@ -524,6 +536,11 @@ func c8Eval(exp string, limit time.Duration) c8Obs {
 		o.Log = append([]c8Event{}, c8log...)
 		o.Parallel = c8par
 		c8mu.Unlock()
+		if runtime.NumGoroutine() > g0+1 {
+			// the library started goroutines during this evaluation (a stage switched to parallel mode at the very
+			// element the result was decided by: its workers have not ticked yet, the feeder has read ahead)
+			o.Parallel = true
+		}
 		o.Micros = time.Since(t0).Microseconds()
 		return o
 	case <-time.After(limit):
@@ -597,6 +614,8 @@ func (p *C8Pr1) apply(id int, x int, calls c8Calls) (bool, bool) {
 		return x > p.T, true
 	case "eq":
 		return x == p.T, true
+	case "lt":
+		return x < p.T, true
 	}
 	return x%p.M == p.R, true
 }
@@ -849,6 +868,21 @@ func (t *C8Term) decide(pl c8Partial, calls c8Calls) string {
 	case "contains":
 		for _, x := range pl.items {
 			if x == t.X {
+				return "true"
+			}
+		}
+		return atEnd("false")
+	case "containsAll":
+		// every element of the needle is found (each item of the haystack serves one needle element)
+		rest := append([]int{}, t.XS...)
+		for _, x := range pl.items {
+			for i, lf := range rest {
+				if lf == x {
+					rest = append(rest[:i], rest[i+1:]...)
+					break
+				}
+			}
+			if len(rest) == 0 {
 				return "true"
 			}
 		}
@@ -1384,6 +1418,11 @@ func (r *c8Run) judge(j *c8Job) {
 		r.sum.Skipped["multiUse-judged-by-go-oracle-only"]++
 		return
 	}
+	if c.Term.Kind == "containsAll" || (c.Multi != nil && c.Multi.Kind == "containsAll") {
+		// List.containsAllItems has no counterpart in the Coq model: outcome and counts judged by the Go oracle above
+		r.sum.Skipped["list-needle-~-judged-by-go-oracle-only"]++
+		return
+	}
 	if c.conc() {
 		r.sum.Skipped["merge-judged-by-go-oracle-only(each operand is read one element ahead by a goroutine)"]++
 		return
@@ -1563,6 +1602,12 @@ func c8Consumers(p *C8Pipe, j int) []*C8Term {
 			&C8Term{Kind: "indexWhere", ID: 20, P1: &C8Pr1{Kind: "eq", T: v}},
 			&C8Term{Kind: "contains", X: v},
 			&C8Term{Kind: "present", ID: 20, P1: &C8Pr1{Kind: "gt", T: v - 1}})
+		// the list-needle form of ~ : its last element found at position j, another one earlier
+		needle := []int{v}
+		if j > 0 {
+			needle = []int{v, items[j/2]}
+		}
+		ts = append(ts, &C8Term{Kind: "containsAll", XS: needle})
 	}
 	return ts
 }
@@ -1874,6 +1919,14 @@ func c8Corpus() []*C8Case {
 		{Pipe: c8Cross(c8St(c8Src("numbers", 3), stMap(5, 1, 0)), c8St(c8Src("numbers", 2), stMap(6, 1, 0))), Term: &C8Term{Kind: "size"}},
 		{Pipe: c8Cross(c8St(c8Src("numbers", 3), stMap(5, 1, 0)), c8St(c8Src("numbers", 0), stMap(6, 1, 0))), Term: &C8Term{Kind: "first"}},
 		{Pipe: c8Cross(c8St(c8Src("numbers", 0), stMap(5, 1, 0)), long(6)), Term: &C8Term{Kind: "size"}},
+		// list needle ~ behind a stage that lets nothing more through after the decisive element
+		// (a containsAllItems that notices "all found" only with the next element evaluates the whole source)
+		{Pipe: c8St(c8St(c8Src("numbers", 20000), stMap(1, 1, 0)), stAccept(2, C8Pr1{Kind: "lt", T: 4})), Term: &C8Term{Kind: "containsAll", XS: []int{3, 1}}},
+		{Pipe: c8St(c8St(c8Src("numbers", 20000), stMap(1, 1, 0)), stAccept(2, C8Pr1{Kind: "lt", T: 6})), Term: &C8Term{Kind: "containsAll", XS: []int{0, 5}}},
+		{Pipe: c8St(c8St(c8Src("numbers", 20000), stMap(1, 0, 7)), stCompact(2, 3)), Term: &C8Term{Kind: "containsAll", XS: []int{7}}},
+		{Pipe: c8St(c8St(c8St(c8Src("numbers", 20000), stMap(1, 1, 0)), stAccept(2, C8Pr1{Kind: "lt", T: 9})), stCompact(3, 4)), Term: &C8Term{Kind: "containsAll", XS: []int{8, 0, 4}}},
+		{Pipe: c8St(c8St(c8Src("numbers", 20000), stMap(1, 1, 0)), stAccept(2, C8Pr1{Kind: "lt", T: 4})), Term: &C8Term{Kind: "containsAll", XS: []int{3, 7}}, Note: "needle not contained: the whole list is needed"},
+		{Pipe: big(), Term: &C8Term{Kind: "containsAll", XS: []int{5, 2}}},
 		// a try expression whose value is a lazy list must not evaluate it (and a failing element behind the
 		// decisive one must not switch to the catch value)
 		{Pipe: c8Wrap(big(), 0, 1), Term: &C8Term{Kind: "first"}},
@@ -2063,5 +2116,10 @@ func cmdC08(seed int64, tier, outDir string) {
 	for i := 0; i < n; i++ {
 		run.run(rng.c8Random())
 	}
+	// last (a violation here is a timeout, which ends the run): the list needle on the 10^11 source behind a
+	// stage that lets nothing more through
+	bigSrc := func() *C8Pipe { return c8St(c8Src("big", 0), stMap(1, 1, 0)) }
+	run.run(&C8Case{Pipe: c8St(bigSrc(), stAccept(2, C8Pr1{Kind: "lt", T: 4})), Term: &C8Term{Kind: "containsAll", XS: []int{3, 1}}})
+	run.run(&C8Case{Pipe: c8St(c8St(bigSrc(), stAccept(2, C8Pr1{Kind: "lt", T: 9})), stCompact(3, 4)), Term: &C8Term{Kind: "containsAll", XS: []int{8, 0}}})
 	finish()
 }
